@@ -88,36 +88,27 @@ Theorem prefix_nonpositive : forall s n, (n <= 0)%Z -> bibtex_prefix s n = Ok []
 Proof. exact prefix_nonpos_lemma. Qed.
 Print Assumptions prefix_nonpositive.
 
-(* for every string: it is a prefix of the string followed by closing braces only, never more
-   of them than the prefix leaves open *)
-Theorem prefix_is_prefix : forall s n out, bibtex_prefix s n = Ok out ->
-  exists p k, out = p ++ repeat c_rbrace k /\ is_prefix p s /\ k <= cdepth_from 0 p.
-Proof. exact prefix_is_prefix_lemma. Qed.
-Print Assumptions prefix_is_prefix.
-
-(* it is a prefix of the string followed by EXACTLY as many closing braces as that prefix leaves
-   open.  FULL STATEMENT (all strings) is refuted below (finding C12-P1); proved for every string
-   that does not end inside a never-closed special character (stray braces allowed) ... *)
-Theorem prefix_shape_partial : forall s n out, ends_in_special s = false -> bibtex_prefix s n = Ok out ->
+(* for EVERY string: it is a prefix of the string followed by exactly as many closing braces as
+   that prefix leaves open (depth clamped at 0 for stray closing braces, as BibTeX does) ... *)
+Theorem prefix_shape : forall s n out, bibtex_prefix s n = Ok out ->
   exists p k, out = p ++ repeat c_rbrace k /\ is_prefix p s /\ k = cdepth_from 0 p.
 Proof. exact prefix_shape_exact_lemma. Qed.
-Print Assumptions prefix_shape_partial.
+Print Assumptions prefix_shape.
 
-(* ... in particular for balanced strings (depth as the running count of the Spec) *)
+(* ... so it closes the braces it opened: the result ends at depth 0 *)
+Theorem prefix_closes : forall s n out, bibtex_prefix s n = Ok out -> cdepth_from 0 out = 0.
+Proof. exact prefix_closes_lemma. Qed.
+Print Assumptions prefix_closes.
+
+(* for balanced strings, with the depth as the running count of the Spec: *)
 Theorem prefix_shape_balanced : forall s n out, balanced s -> bibtex_prefix s n = Ok out ->
   exists p k, out = p ++ repeat c_rbrace k /\ is_prefix p s /\ depth_from 0 p = Some k.
 Proof. exact prefix_shape_lemma. Qed.
 Print Assumptions prefix_shape_balanced.
 
-(* hence the prefix of a balanced string is balanced: it closes the braces it opened *)
-Theorem prefix_closes_partial : forall s n out, balanced s -> bibtex_prefix s n = Ok out -> balanced out.
+Theorem prefix_closes_balanced : forall s n out, balanced s -> bibtex_prefix s n = Ok out -> balanced out.
 Proof. exact prefix_balanced_lemma. Qed.
-Print Assumptions prefix_closes_partial.
-
-(* finding C12-P1: on the unbalanced string "{\{" the prefix "{\{}" leaves a brace open *)
-Theorem prefix_closes_refuted : exists s n out, bibtex_prefix s n = Ok out /\ cdepth_from 0 out <> 0.
-Proof. exact prefix_closes_refuted_lemma. Qed.
-Print Assumptions prefix_closes_refuted.
+Print Assumptions prefix_closes_balanced.
 
 (* ---- substring ---- *)
 
@@ -218,10 +209,22 @@ Theorem split_reassemble : forall m s pieces, split_tex_string_gen m s false fal
 Proof. exact split_reassemble_lemma. Qed.
 Print Assumptions split_reassemble.
 
-(* never splits inside braces: on a balanced string every piece is balanced and no
-   separator contains a brace, so every separator lies at brace depth 0.
-   FULL STATEMENT (all strings, clamped depth) is refuted below (finding C12-S1) *)
-Theorem split_never_in_braces_partial : forall m s pieces, balanced s ->
+(* never splits inside braces, EVERY string: each piece but the last returns to (clamped) brace
+   depth 0 and no separator contains an opening brace, so every separator lies at depth 0 (the
+   last piece can be left open only by a group that is never closed) *)
+Theorem split_never_in_braces : forall m s pieces, split_tex_string_gen m s false false = Ok pieces ->
+  (s = [] /\ pieces = []) \/
+  exists pairs lastp,
+    pieces = map fst pairs ++ [lastp] /\
+    s = flat_map (fun ps => fst ps ++ snd ps) pairs ++ lastp /\
+    Forall (fun p => cdepth_from 0 p = 0) (map fst pairs) /\
+    Forall (Forall (fun c => is_lbrace c = false)) (map snd pairs) /\
+    Forall (matched m) (map snd pairs).
+Proof. exact split_top_level_all_lemma. Qed.
+Print Assumptions split_never_in_braces.
+
+(* on a balanced string every piece is balanced and no separator contains any brace *)
+Theorem split_never_in_braces_balanced : forall m s pieces, balanced s ->
   split_tex_string_gen m s false false = Ok pieces ->
   (s = [] /\ pieces = []) \/
   exists pairs lastp,
@@ -229,10 +232,9 @@ Theorem split_never_in_braces_partial : forall m s pieces, balanced s ->
     s = flat_map (fun ps => fst ps ++ snd ps) pairs ++ lastp /\
     Forall balanced pieces /\ Forall (Forall (fun c => is_brace c = false)) (map snd pairs).
 Proof. exact split_top_level_lemma. Qed.
-Print Assumptions split_never_in_braces_partial.
+Print Assumptions split_never_in_braces_balanced.
 
-(* the same for every string all of whose groups are closed (stray closing braces allowed; depth
-   clamped at 0 as BibTeX does): every piece returns to depth 0, no separator contains an opening brace *)
+(* when every group is closed (stray closing braces allowed) the last piece is at depth 0 too *)
 Theorem split_never_in_braces_clamped : forall m s pieces, cdepth_from 0 s = 0 ->
   split_tex_string_gen m s false false = Ok pieces ->
   (s = [] /\ pieces = []) \/
@@ -243,12 +245,6 @@ Theorem split_never_in_braces_clamped : forall m s pieces, cdepth_from 0 s = 0 -
     Forall (Forall (fun c => is_lbrace c = false)) (map snd pairs).
 Proof. exact split_top_level_c_lemma. Qed.
 Print Assumptions split_never_in_braces_clamped.
-
-Theorem split_never_in_braces_refuted :
-  exists s pieces p, split_tex_string_gen sep_space s false true = Ok pieces /\
-                     In p pieces /\ cdepth_from 0 p <> 0.
-Proof. exact split_top_level_refuted_lemma. Qed.
-Print Assumptions split_never_in_braces_refuted.
 
 (* split_tex_string never raises and the model's fuel suffices *)
 Theorem split_total : forall m s st fe, exists pieces, split_tex_string_gen m s st fe = Ok pieces.
@@ -369,4 +365,10 @@ Proof. vm_compute. auto 8. Qed.
 Example change_case_not_idem_example :
   ends_in_special (s2l "{\{") = true /\
   change_case (s2l "{\{") 0 = Ok (s2l "{\{}") /\ change_case (s2l "{\{}") 0 = Ok (s2l "{\{}}").
+Proof. vm_compute. auto. Qed.
+(* the inputs of the two repaired defects (C12-P1 76966c9, C12-S1 bae0311), pinned *)
+Example fixed_findings_example :
+  bibtex_prefix (s2l "{\{") 1 = Ok (s2l "{\{}}") /\
+  split_tex_string_gen sep_space (s2l "{a{b}c d") false true = Ok [s2l "{a{b}c d"] /\
+  split_tex_string_gen sep_hyphen (s2l "{{-") false false = Ok [s2l "{{-"].
 Proof. vm_compute. auto. Qed.
